@@ -137,15 +137,16 @@ def run(ctx):
                             None else None
                         if ht == "builtins.ValueError" and any(
                                 isinstance(x, ast.Raise) and isinstance(
-                                    x.exc, ast.Call) and m.resolve(
-                                    fi.module, x.exc.func)
-                                == "ZConfig.DataConversionError"
+                                    x.exc, ast.Call) and m.is_subclass(
+                                    m.resolve(fi.module, x.exc.func) or "",
+                                    "ZConfig.ConfigurationError")
                                 for x in h.body):
                             ok = True
                 p = par
             run.check(ok, "C01.R6", fi.qualname, src(n),
-                      "inside a try whose ValueError handler raises "
-                      "DataConversionError",
+                      "inside a try whose ValueError handler raises a "
+                      "configuration error (DataConversionError, or "
+                      "SchemaError for schema-time conversions)",
                       "the datatype call %s is not wrapped: a ValueError of "
                       "the datatype would escape as a bare ValueError"
                       % src(n), loc=m.loc(fi, n))
